@@ -243,10 +243,252 @@ crate::verif_common::harness! {
     }
 }
 
-// ---------------------------------------------------------------- C26: decode_cookie
-// NOT CHECKED: any harness that reaches KeySet::decode_cookie makes the Kani 0.68 compiler panic
-// (intrinsics.rs:243) because the real AES-SIV `decrypt` (aes/cpufeatures intrinsics) becomes
-// reachable; a model cipher via the declared source transform is needed (DESIGN.md C26: K-extract).
+// quick-tier instances of the same contract with the history fixed (the symbolic-history harness
+// above needs more than 15 min): history 0 drops BOTH old keys at once (id_offset advances by 2),
+// history 1 keeps the newer one. The old key set is kept alive by a second reference so that CBMC
+// does not have to unroll the zeroising drop of the old keys.
+fn rotate_contract_fixed_history(hist: usize) {
+    let (mut p, raw) = any_provider(2);
+    kani::assume(wf(&p.current));
+    p.history = hist;
+    let off = p.current.id_offset;
+    let keep = p.current.clone();
+    p.rotate();
+    let ks = &p.current;
+    let kept = if hist < 2 { hist } else { 2 };
+    let dropped = 2 - kept;
+    assert!(ks.keys.len() == kept + 1, "history old keys + the fresh one");
+    assert!(wf(ks), "newest key is primary");
+    assert!(ks.id_offset == off.wrapping_add(dropped as u32), "id offset advances by the dropped count");
+    assert!(p.history == hist);
+    if kept > 0 {
+        let j: usize = kani::any();
+        kani::assume(j < kept);
+        assert!(same_key(&ks.keys[j], &raw[dropped + j][..]), "retained keys keep their wire id");
+    }
+    kani::cover!(off == u32::MAX, "offset wraps");
+    core::mem::forget(keep);
+    core::mem::forget(p);
+}
+crate::verif_common::harness! {
+    #[kani::stub(zeroize::optimization_barrier, barrier_stub)]
+    #[kani::stub(crate::packet::AesSivCmac512::new_random, new_random_stub)]
+    #[kani::unwind(66)]
+    fn c26_b_rotate_2keys_history0_drops_both() {
+        rotate_contract_fixed_history(0);
+    }
+}
+crate::verif_common::harness! {
+    #[kani::stub(zeroize::optimization_barrier, barrier_stub)]
+    #[kani::stub(crate::packet::AesSivCmac512::new_random, new_random_stub)]
+    #[kani::unwind(66)]
+    fn c26_b_rotate_2keys_history1_keeps_newest() {
+        rotate_contract_fixed_history(1);
+    }
+}
+
+// ---------------------------------------------------------------- C26: decode_cookie / encode_cookie key selection
+// The real AES-SIV `decrypt`/`encrypt` make the Kani 0.68 compiler panic (intrinsics.rs:243: aes /
+// cpufeatures intrinsics), so the two trait methods of `AesSivCmac512` are replaced by recording
+// models (kani::stub on the trait implementation): which key was asked, with which slices. What is
+// decided here is the id arithmetic of C26 -- which key a wire id selects and which wire id a new
+// cookie carries; that AES-SIV itself authenticates is assumption A3.
+use core::sync::atomic::{AtomicU8, AtomicUsize, Ordering::Relaxed};
+static DEC_CALLS: crate::verif_common::Ghost<AtomicUsize> = crate::verif_common::Ghost::new(0x26d1c0ffee000001, AtomicUsize::new(0));
+static DEC_KEY0: crate::verif_common::Ghost<AtomicU8> = crate::verif_common::Ghost::new(0x26d1c0ffee000002, AtomicU8::new(0));
+static DEC_CT_LEN: crate::verif_common::Ghost<AtomicUsize> = crate::verif_common::Ghost::new(0x26d1c0ffee000003, AtomicUsize::new(0));
+static DEC_NONCE_OFF: crate::verif_common::Ghost<AtomicUsize> = crate::verif_common::Ghost::new(0x26d1c0ffee000004, AtomicUsize::new(0));
+static COOKIE_BASE: crate::verif_common::Ghost<AtomicUsize> = crate::verif_common::Ghost::new(0x26d1c0ffee000005, AtomicUsize::new(0));
+static ENC_CALLS: crate::verif_common::Ghost<AtomicUsize> = crate::verif_common::Ghost::new(0x26d1c0ffee000006, AtomicUsize::new(0));
+static ENC_KEY0: crate::verif_common::Ghost<AtomicU8> = crate::verif_common::Ghost::new(0x26d1c0ffee000007, AtomicU8::new(0));
+
+fn decrypt_model(this: &AesSivCmac512, nonce: &[u8], ciphertext: &[u8], associated_data: &[u8]) -> Result<Vec<u8>, DecryptError> {
+    DEC_CALLS.fetch_add(1, Relaxed);
+    DEC_KEY0.store(this.key_bytes()[0], Relaxed);
+    DEC_CT_LEN.store(ciphertext.len(), Relaxed);
+    DEC_NONCE_OFF.store((nonce.as_ptr() as usize).wrapping_sub(COOKIE_BASE.load(Relaxed)), Relaxed);
+    assert!(nonce.len() == 16 && associated_data.is_empty());
+    Err(DecryptError)
+}
+fn encrypt_model(this: &AesSivCmac512, buffer: &mut [u8], plaintext_length: usize, _associated_data: &[u8]) -> std::io::Result<crate::packet::EncryptResult> {
+    ENC_CALLS.fetch_add(1, Relaxed);
+    ENC_KEY0.store(this.key_bytes()[0], Relaxed);
+    assert!(buffer.len() >= plaintext_length + 32);
+    Ok(crate::packet::EncryptResult { nonce_length: 16, ciphertext_length: plaintext_length + 16 })
+}
+
+// the 256-bit cipher only occurs as the type of the session keys inside a decoded cookie (vtable entries)
+fn decrypt_model_256(_this: &crate::packet::AesSivCmac256, _nonce: &[u8], _ciphertext: &[u8], _associated_data: &[u8]) -> Result<Vec<u8>, DecryptError> {
+    Err(DecryptError)
+}
+fn encrypt_model_256(_this: &crate::packet::AesSivCmac256, _buffer: &mut [u8], plaintext_length: usize, _associated_data: &[u8]) -> std::io::Result<crate::packet::EncryptResult> {
+    Ok(crate::packet::EncryptResult { nonce_length: 16, ciphertext_length: plaintext_length + 16 })
+}
+
+// decode_cookie, for EVERY 2-key set (any id_offset, including a window that straddles the u32 wrap)
+// and every 40-byte cookie: the wire id selects the key at index (id - id_offset) mod 2^32; an id
+// outside [id_offset, id_offset + len) (mod 2^32) is rejected before any cipher is consulted; the
+// cipher gets the 16 bytes at offset 6 as nonce and exactly the declared ciphertext bytes.
+crate::verif_common::harness! {
+    #[kani::stub(zeroize::optimization_barrier, barrier_stub)]
+    #[kani::stub(<crate::packet::AesSivCmac512 as crate::packet::Cipher>::decrypt, decrypt_model)]
+    #[kani::stub(<crate::packet::AesSivCmac512 as crate::packet::Cipher>::encrypt, encrypt_model)]
+    #[kani::stub(<crate::packet::AesSivCmac256 as crate::packet::Cipher>::decrypt, decrypt_model_256)]
+    #[kani::stub(<crate::packet::AesSivCmac256 as crate::packet::Cipher>::encrypt, encrypt_model_256)]
+    #[kani::unwind(66)]
+    fn c26_b_decode_selects_key_by_wire_id() {
+        let (p, raw) = any_provider(2);
+        kani::assume(raw[0][0] != raw[1][0]);
+        let ks = &p.current;
+        let cookie: [u8; 40] = kani::any();
+        COOKIE_BASE.store(cookie.as_ptr() as usize, Relaxed);
+        let id = u32::from_be_bytes([cookie[0], cookie[1], cookie[2], cookie[3]]);
+        let ctlen = u16::from_be_bytes([cookie[4], cookie[5]]) as usize;
+        let r = ks.decode_cookie(&cookie[..]);
+        assert!(r.is_err(), "the model cipher rejects everything");
+        let idx = id.wrapping_sub(ks.id_offset);
+        if idx < 2 && ctlen <= 40 - 22 {
+            assert!(DEC_CALLS.load(Relaxed) == 1, "a wire id inside the window reaches exactly one key");
+            assert!(DEC_KEY0.load(Relaxed) == raw[idx as usize][0], "wire id id_offset + i selects key i");
+            assert!(DEC_CT_LEN.load(Relaxed) == ctlen && DEC_NONCE_OFF.load(Relaxed) == 6);
+        } else {
+            assert!(DEC_CALLS.load(Relaxed) == 0, "ids outside the window / overlong ciphertext: no key is tried");
+        }
+        kani::cover!(ks.id_offset == u32::MAX && id == 0 && DEC_CALLS.load(Relaxed) == 1, "window straddling the u32 wrap");
+        kani::cover!(idx == 2, "first id past the window");
+        core::mem::forget(r);
+    }
+}
+
+// encode_cookie, for every 2-key set: the PRIMARY key encrypts, the cookie carries the wire id
+// primary + id_offset (mod 2^32), the declared ciphertext length and nothing but header + nonce +
+// ciphertext. Together with the decode contract above: a cookie made by key i of a set decodes with
+// key i of every later set that still holds that key at wire id id_offset + i (rotate contract).
+fn session_cookie(a: [u8; 32], b: [u8; 32]) -> DecodedServerCookie {
+    DecodedServerCookie {
+        algorithm: AeadAlgorithm::AeadAesSivCmac256,
+        s2c: Box::new(AesSivCmac256::try_from(&a[..]).unwrap()),
+        c2s: Box::new(AesSivCmac256::try_from(&b[..]).unwrap()),
+    }
+}
+crate::verif_common::harness! {
+    #[kani::stub(zeroize::optimization_barrier, barrier_stub)]
+    #[kani::stub(<crate::packet::AesSivCmac512 as crate::packet::Cipher>::decrypt, decrypt_model)]
+    #[kani::stub(<crate::packet::AesSivCmac512 as crate::packet::Cipher>::encrypt, encrypt_model)]
+    #[kani::stub(<crate::packet::AesSivCmac256 as crate::packet::Cipher>::decrypt, decrypt_model_256)]
+    #[kani::stub(<crate::packet::AesSivCmac256 as crate::packet::Cipher>::encrypt, encrypt_model_256)]
+    #[kani::unwind(66)]
+    fn c26_b_encode_uses_primary_key_and_its_wire_id() {
+        let (p, raw) = any_provider(2);
+        kani::assume(raw[0][0] != raw[1][0]);
+        let ks = &p.current;
+        let c = session_cookie(kani::any(), kani::any());
+        let out = ks.encode_cookie(&c);
+        assert!(ENC_CALLS.load(Relaxed) == 1 && ENC_KEY0.load(Relaxed) == raw[ks.primary as usize][0], "the primary key encrypts");
+        assert!(out.len() == 6 + 16 + (2 + 64 + 16));
+        assert!(u32::from_be_bytes([out[0], out[1], out[2], out[3]]) == ks.primary.wrapping_add(ks.id_offset), "wire id = primary + id_offset");
+        assert!(u16::from_be_bytes([out[4], out[5]]) as usize == 2 + 64 + 16, "declared ciphertext length");
+        kani::cover!(ks.primary == 1 && ks.id_offset == u32::MAX, "wire id wraps");
+        core::mem::forget(c);
+    }
+}
+
+// round trip under an authenticating model cipher (ciphertext = plaintext followed by a 16-byte tag
+// naming the key; decrypt succeeds iff the tag names the deciphering key): a cookie made by a key set
+// decodes, with the same key set, to the same algorithm and session keys.
+fn encrypt_tagging(this: &AesSivCmac512, buffer: &mut [u8], plaintext_length: usize, _associated_data: &[u8]) -> std::io::Result<crate::packet::EncryptResult> {
+    ENC_CALLS.fetch_add(1, Relaxed);
+    buffer.copy_within(0..plaintext_length, 16);
+    buffer[..16].fill(0);
+    buffer[16 + plaintext_length..32 + plaintext_length].fill(this.key_bytes()[0]);
+    Ok(crate::packet::EncryptResult { nonce_length: 16, ciphertext_length: plaintext_length + 16 })
+}
+fn decrypt_tagging(this: &AesSivCmac512, _nonce: &[u8], ciphertext: &[u8], _associated_data: &[u8]) -> Result<Vec<u8>, DecryptError> {
+    DEC_CALLS.fetch_add(1, Relaxed);
+    if ciphertext.len() < 16 || ciphertext[ciphertext.len() - 16] != this.key_bytes()[0] {
+        return Err(DecryptError);
+    }
+    Ok(ciphertext[..ciphertext.len() - 16].to_vec())
+}
+fn cookie_roundtrip(nkeys: usize) {
+        let (p, raw) = any_provider(nkeys);
+        kani::assume(nkeys < 2 || raw[0][0] != raw[1][0]);
+        let ks = &p.current;
+        let (a, b): ([u8; 32], [u8; 32]) = (kani::any(), kani::any());
+        let c = session_cookie(a, b);
+        let out = ks.encode_cookie(&c);
+        let d = ks.decode_cookie(&out).expect("a cookie made by this key set decodes with it");
+        assert!(DEC_CALLS.load(Relaxed) == 1);
+        assert!(d.algorithm == AeadAlgorithm::AeadAesSivCmac256);
+        let j: usize = kani::any();
+        kani::assume(j < 32);
+        assert!(d.s2c.key_bytes().len() == 32 && d.c2s.key_bytes().len() == 32);
+        assert!(d.s2c.key_bytes()[j] == a[j] && d.c2s.key_bytes()[j] == b[j], "same session keys");
+        kani::cover!(ks.id_offset == u32::MAX, "largest id offset reachable");
+        core::mem::forget(c);
+        core::mem::forget(d);
+    }
+crate::verif_common::harness! {
+    #[kani::stub(zeroize::optimization_barrier, barrier_stub)]
+    #[kani::stub(<crate::packet::AesSivCmac512 as crate::packet::Cipher>::decrypt, decrypt_tagging)]
+    #[kani::stub(<crate::packet::AesSivCmac512 as crate::packet::Cipher>::encrypt, encrypt_tagging)]
+    #[kani::stub(<crate::packet::AesSivCmac256 as crate::packet::Cipher>::decrypt, decrypt_model_256)]
+    #[kani::stub(<crate::packet::AesSivCmac256 as crate::packet::Cipher>::encrypt, encrypt_model_256)]
+    #[kani::unwind(66)]
+    fn c26_tb_cookie_roundtrip_1key_under_model_cipher() {
+        cookie_roundtrip(1);
+    }
+}
+crate::verif_common::harness! {
+    #[kani::stub(zeroize::optimization_barrier, barrier_stub)]
+    #[kani::stub(<crate::packet::AesSivCmac512 as crate::packet::Cipher>::decrypt, decrypt_tagging)]
+    #[kani::stub(<crate::packet::AesSivCmac512 as crate::packet::Cipher>::encrypt, encrypt_tagging)]
+    #[kani::stub(<crate::packet::AesSivCmac256 as crate::packet::Cipher>::decrypt, decrypt_model_256)]
+    #[kani::stub(<crate::packet::AesSivCmac256 as crate::packet::Cipher>::encrypt, encrypt_model_256)]
+    #[kani::unwind(66)]
+    fn c26_tb_cookie_roundtrip_2keys_under_model_cipher() {
+        cookie_roundtrip(2);
+    }
+}
+
+// short cookies (< 22 bytes) are rejected without consulting a key
+crate::verif_common::harness! {
+    #[kani::stub(zeroize::optimization_barrier, barrier_stub)]
+    #[kani::stub(<crate::packet::AesSivCmac512 as crate::packet::Cipher>::decrypt, decrypt_model)]
+    #[kani::stub(<crate::packet::AesSivCmac512 as crate::packet::Cipher>::encrypt, encrypt_model)]
+    #[kani::stub(<crate::packet::AesSivCmac256 as crate::packet::Cipher>::decrypt, decrypt_model_256)]
+    #[kani::stub(<crate::packet::AesSivCmac256 as crate::packet::Cipher>::encrypt, encrypt_model_256)]
+    #[kani::unwind(66)]
+    fn c26_b_decode_short_cookie_rejected() {
+        let (p, _raw) = any_provider(1);
+        let cookie: [u8; 21] = kani::any();
+        let n: usize = kani::any();
+        kani::assume(n <= 21);
+        let r = p.current.decode_cookie(&cookie[..n]);
+        assert!(r.is_err() && DEC_CALLS.load(Relaxed) == 0);
+        core::mem::forget(r);
+    }
+}
+
+// FALSE: ids below id_offset are never decoded (the window may wrap) -- must be refuted
+crate::verif_common::harness! {
+    #[kani::stub(zeroize::optimization_barrier, barrier_stub)]
+    #[kani::stub(<crate::packet::AesSivCmac512 as crate::packet::Cipher>::decrypt, decrypt_model)]
+    #[kani::stub(<crate::packet::AesSivCmac512 as crate::packet::Cipher>::encrypt, encrypt_model)]
+    #[kani::stub(<crate::packet::AesSivCmac256 as crate::packet::Cipher>::decrypt, decrypt_model_256)]
+    #[kani::stub(<crate::packet::AesSivCmac256 as crate::packet::Cipher>::encrypt, encrypt_model_256)]
+    #[kani::unwind(66)]
+    fn c26_canary_ids_below_offset_never_reach_a_key() {
+        let (p, _raw) = any_provider(2);
+        let cookie: [u8; 40] = kani::any();
+        let id = u32::from_be_bytes([cookie[0], cookie[1], cookie[2], cookie[3]]);
+        let r = p.current.decode_cookie(&cookie[..]);
+        core::mem::forget(r);
+        if id < p.current.id_offset {
+            assert!(DEC_CALLS.load(Relaxed) == 0);
+        }
+    }
+}
 
 // ---------------------------------------------------------------- canaries
 
